@@ -125,8 +125,8 @@ MUTANTS = [
   "edits": [("ractor/src/actor.rs", "                .run_with_signal(Box::pin(Self::do_post_stop(\n                    myself_clone.clone(),\n                    handler,\n                    exit_state,\n                )))",
              "                .run_with_signal(Box::pin(Box::pin(Self::do_post_stop(\n                    myself_clone.clone(),\n                    handler,\n                    exit_state,\n                ))))")]},
  {"name": "silent-link-early-returns-merged", "props": ["C05", "C04"], "expect": "silent",
-  "edits": [("ractor/src/actor/supervision.rs", "        if child.get_status() >= super::actor_cell::ActorStatus::Draining\n            || supervisor.get_status() >= super::actor_cell::ActorStatus::Draining\n        {\n            return false;\n        }",
-             "        if child.get_status() >= super::actor_cell::ActorStatus::Draining {\n            return false;\n        }\n        if supervisor.get_status() >= super::actor_cell::ActorStatus::Draining {\n            return false;\n        }")]},
+  "edits": [("ractor/src/actor/supervision.rs", "        if child.get_status() >= super::actor_cell::ActorStatus::Stopping\n            || supervisor.get_status() >= super::actor_cell::ActorStatus::Draining\n        {\n            return false;\n        }",
+             "        if child.get_status() >= super::actor_cell::ActorStatus::Stopping {\n            return false;\n        }\n        if supervisor.get_status() >= super::actor_cell::ActorStatus::Draining {\n            return false;\n        }")]},
  {"name": "silent-elect-sessions-extra-any", "props": ["C18"], "expect": "silent",
   "edits": [("ractor_cluster/src/node.rs", "    let has_server = candidates.iter().any(|candidate| candidate.is_server);",
              "    let has_server = candidates.iter().filter(|candidate| candidate.is_server).count() > 0;")]},
@@ -140,8 +140,8 @@ MUTANTS = [
   "edits": [("ractor_cluster/src/net/session.rs", "        let read_len = (len - buf.len()).min(chunk.len());",
              "        let remaining = len - buf.len();\n        let read_len = remaining.min(chunk.len());")]},
  {"name": "silent-send-interval-loop-form", "props": ["C12"], "expect": "silent",
-  "edits": [("ractor/src/time.rs", "        while ACTIVE_STATES.contains(&actor.get_status()) {\n            timer.tick().await;\n            // if we receive an error trying to send, the channel is closed and we should stop trying\n            // actor died\n            if actor.send_message::<TMessage>(msg()).is_err() {\n                break;\n            }\n        }",
-             "        loop {\n            if !ACTIVE_STATES.contains(&actor.get_status()) {\n                break;\n            }\n            timer.tick().await;\n            if actor.send_message::<TMessage>(msg()).is_err() {\n                return;\n            }\n        }")]},
+  "edits": [("ractor/src/time.rs", "        while actor.get_status() < crate::ActorStatus::Draining {\n            timer.tick().await;\n            // if we receive an error trying to send, the channel is closed and we should stop trying\n            // actor died\n            if actor.send_message::<TMessage>(msg()).is_err() {\n                break;\n            }\n        }",
+             "        loop {\n            if !(actor.get_status() < crate::ActorStatus::Draining) {\n                break;\n            }\n            timer.tick().await;\n            if actor.send_message::<TMessage>(msg()).is_err() {\n                return;\n            }\n        }")]},
  {"name": "silent-rename-sink-fn", "props": ["C01", "C03", "C04"], "expect": "silent",
   "edits": [("ractor/src/actor/actor_cell.rs", "run_with_signal", "race_against_kill", "all"), ("ractor/src/actor.rs", "run_with_signal", "race_against_kill", "all"), ("ractor/src/thread_local/inner.rs", "run_with_signal", "race_against_kill", "all")]},
  {"name": "silent-rename-listen-fn", "props": ["C01", "C03", "C07"], "expect": "silent",
@@ -206,4 +206,12 @@ MUTANTS = [
   "edits": [("ractor/src/factory/routing.rs", "            .find(|(_, worker)| worker.has_pending_key(&job.key))", "            .find(|(_, worker)| worker.is_processing_key(&job.key))")]},
  {"name": "silent-interval-gate-as-table-of-live-states", "props": ["C12"], "expect": "silent",
   "edits": [("ractor/src/time.rs", "        while actor.get_status() < crate::ActorStatus::Draining {", "        while actor.get_status() <= crate::ActorStatus::Upgrading {")]},
+ {"name": "silent-round3-equivalent-spellings", "props": ["C03", "C13", "C15", "C20", "C12", "C18", "C10"], "expect": "silent",
+  "edits": [("ractor/src/factory/factoryimpl.rs", "            for worker_props in state.pool.values_mut() {\n                for mut msg in worker_props.take_queued_jobs() {", "            for (_wid, worker_props) in state.pool.iter_mut() {\n                for mut msg in worker_props.take_queued_jobs() {"),
+            ("ractor/src/factory/factoryimpl.rs", "                        let removed = existing_worker.remove();\n                        self.worker_by_actor.remove(&removed.actor.get_id());", "                        let removed = existing_worker.remove();\n                        let gone = removed.actor.get_id();\n                        self.worker_by_actor.remove(&gone);"),
+            ("ractor/src/factory/factoryimpl.rs", "        self.cancel_dead_mans_check();\n        if let Some(dmd) = &self.dead_mans_switch {\n            self.dead_mans_check = Some(", "        if let Some(old) = self.dead_mans_check.take() {\n            old.abort();\n        }\n        if let Some(dmd) = &self.dead_mans_switch {\n            self.dead_mans_check = Some("),
+            ("ractor_cluster/src/node/node_session.rs", "                    let _ = actor\n                        .stop_and_wait(Some(\"remote_exit\".to_string()), None)\n                        .await;", "                    if let Err(err) = actor\n                        .stop_and_wait(Some(\"remote_exit\".to_string()), None)\n                        .await\n                    {\n                        tracing::trace!(\"proxy already gone: {err}\");\n                    }"),
+            ("ractor_cluster/src/node.rs", "    if candidates.len() > 1 && candidates.iter().all(|candidate| candidate.is_server) {", "    if candidates.len() > 1 && !candidates.iter().any(|candidate| !candidate.is_server) {"),
+            ("ractor/src/registry.rs", "    reg.get(name.as_ref()).map(|v| v.value().clone())", "    reg.get(name.as_ref())\n        .map(|v| v.value().clone())\n        .filter(|actor| actor.get_status() < crate::ActorStatus::Stopping)"),
+            ("ractor/src/actor/actor_cell.rs", "            Ok(self.inner.send_signal_and_wait(Signal::Kill).await?)", "            self.kill();\n            self.inner.wait().await;\n            Ok(())")]},
 ]
